@@ -33,16 +33,60 @@ def _run_job(args):
     out["rss_mb"] = resource.getrusage(resource.RUSAGE_SELF).ru_maxrss // 1024
     return out
 
-def run_jobs(jobs, nproc=None):
-    """jobs: list of (name, callable, kwargs).  fork-based pool so that parsed IR modules are inherited."""
+def _child(job, path):
+    out = _run_job(job)
+    try:
+        txt = json.dumps(out, default=str)
+    except Exception as e:
+        txt = json.dumps({"name": job[0], "status": "error", "paths": 0, "obligations": 0, "discharged": 0, "failed": [], "unknown": [],
+                          "unsupported": ["result not serialisable: %s" % e], "unwind": [], "queries": 0, "solver_s": 0.0, "samples": [], "reached": [], "extra": {}, "wall_s": 0, "rss_mb": 0})
+    with open(path + ".tmp", "w") as f: f.write(txt)
+    os.rename(path + ".tmp", path)
+
+def run_jobs(jobs, nproc=None, job_timeout=None):
+    """jobs: list of (name, callable, kwargs).  One forked process per job (so parsed IR modules are inherited), at most nproc at
+    a time; results come back through files; a job that exceeds its time limit or dies is reported as inconclusive."""
     nproc = nproc or NPROC
+    job_timeout = job_timeout or int(os.environ.get("VERIF_JOB_TIMEOUT", "3000"))
     if not jobs: return []
-    if nproc == 1 or len(jobs) == 1:
-        return [_run_job(j) for j in jobs]
+    import tempfile, shutil
+    d = tempfile.mkdtemp(prefix="cctz-verif-jobs-")
     ctx = multiprocessing.get_context("fork")
-    with ctx.Pool(min(nproc, len(jobs)), maxtasksperchild=1) as pool:
-        res = pool.map(_run_job, jobs, chunksize=1)
-    return res
+    pending = list(enumerate(jobs)); running = {}; results = [None] * len(jobs)
+    def blank(name, why):
+        return {"name": name, "status": "error", "paths": 0, "obligations": 0, "discharged": 0, "failed": [], "unknown": [], "unsupported": [why],
+                "unwind": [], "queries": 0, "solver_s": 0.0, "samples": [], "reached": [], "extra": {}, "wall_s": 0, "rss_mb": 0}
+    try:
+        while pending or running:
+            while pending and len(running) < nproc:
+                i, job = pending.pop(0)
+                path = os.path.join(d, "%d.json" % i)
+                p = ctx.Process(target=_child, args=(job, path)); p.start()
+                running[i] = (p, path, time.time(), job[0])
+            time.sleep(0.05)
+            for i in list(running):
+                p, path, t0, name = running[i]
+                if os.path.exists(path):
+                    with open(path) as f: results[i] = json.load(f)
+                    p.join(5); del running[i]
+                elif not p.is_alive():
+                    p.join(1)
+                    if os.path.exists(path):
+                        with open(path) as f: results[i] = json.load(f)
+                    else:
+                        results[i] = blank(name, "job process died (exit code %s)" % p.exitcode)
+                    del running[i]
+                elif time.time() - t0 > job_timeout:
+                    p.terminate(); p.join(5)
+                    if p.is_alive(): p.kill()
+                    results[i] = blank(name, "job exceeded its time limit of %d s" % job_timeout)
+                    del running[i]
+    finally:
+        for i, (p, path, t0, name) in running.items():
+            try: p.kill()
+            except Exception: pass
+        shutil.rmtree(d, ignore_errors=True)
+    return results
 
 # --------------------------------------------------------------------------------------------
 def load_known():
